@@ -20,6 +20,7 @@ Oracle = reference model address -> live double, compared after every step:
     table unchanged;
   * no other exception from any operation; everything queued on the listen socket is accepted.
 """
+import errno
 import itertools
 import socket
 
@@ -185,11 +186,17 @@ def run_case(case):
                     fails.append(("accept-left:" + cname, "step %d %r: %d queued connections were not accepted into the table"
                                   % (step, op, len(listen.pending) + len(server.axes))))
                     break
-            elif kind in ("peerclose", "peerdata"):
+            elif kind in ("peerclose", "peerdata", "peerreset"):
                 e = ready.get(ADDRS[op[1]])
                 if e is not None and not e.closed:
                     if kind == "peerclose":
                         e.double.scripts["recv"].default = b""
+                    elif kind == "peerreset":
+                        # the peer has reset the connection: the kernel refuses shutdown() of this socket from now on
+                        # with ENOTCONN (an OSError that is no ConnectionError); nothing more arrives on it
+                        e.double.scripts["recv"].default = b""
+                        e.double.shutdown_error = errno.ENOTCONN
+                        info["reset"] = info.get("reset", 0) + 1
                     else:
                         e.double.scripts["recv"].push(bytes(range(op[2])))
             elif kind == "remove":
@@ -273,6 +280,7 @@ def history_strategy(maxlen):
         st.builds(lambda sv: [sv], service),
         st.builds(lambda x, sv: [["peerclose", x], sv], a, service),
         st.builds(lambda x, n: [["peerdata", x, n]], a, st.integers(1, 9)),
+        st.builds(lambda x: [["peerreset", x]], a),
         st.builds(lambda x, b: [["remove", x, int(b)]], a, st.booleans()),
         st.builds(lambda x: [["close", x]], a),
         st.builds(lambda x, h: [["shutdown", x, h]], a, st.integers(0, 2)),
@@ -290,6 +298,8 @@ def classes_of(tls, info, nops):
         cls.append("stale-pending-replaced")
     if info["stale_ready"]:
         cls.append("stale-ready-replaced")
+    if info.get("reset"):
+        cls.append("peer-reset-shutdown-fails")
     if info["unknown"]:
         cls.append("unknown-address-op")
     if info["promotions"]:
